@@ -263,3 +263,309 @@ func ruleLineExact(c *Ctx) {
 		c.judge(len(probs) == 0, "R-LINE-EXACT", name+":line terminator only", fn.Pos(), "only the final newline is removed", fmt.Sprintf("the line source alters payload bytes: %v", probs))
 	}
 }
+
+// strConstsReaching collects the string constants that can flow into v:
+// through φ, conversions, calls (any argument — an over-approximation that
+// suits "is this constant handed on"), variadic backing arrays, element loads,
+// and parameters (bound by bind for one particular call, otherwise by every
+// call site inside sc).  Loads of struct fields are not followed.
+func strConstsReaching(v ssa.Value, bind map[*ssa.Parameter]ssa.Value, sc *callScope) []string {
+	out := map[string]bool{}
+	seen := map[ssa.Value]bool{}
+	var walk func(v ssa.Value, d int)
+	walk = func(v ssa.Value, d int) {
+		if v == nil || d > 14 || seen[v] {
+			return
+		}
+		seen[v] = true
+		switch x := v.(type) {
+		case *ssa.Const:
+			if x.Value != nil && x.Value.Kind() == constant.String {
+				out[constant.StringVal(x.Value)] = true
+			}
+		case *ssa.Phi:
+			for _, e := range x.Edges {
+				walk(e, d+1)
+			}
+		case *ssa.Call:
+			for _, a := range x.Call.Args {
+				walk(a, d+1)
+			}
+		case *ssa.Extract:
+			walk(x.Tuple, d+1)
+		case *ssa.UnOp:
+			if x.Op != token.MUL {
+				walk(x.X, d+1)
+				return
+			}
+			switch a := x.X.(type) {
+			case *ssa.IndexAddr:
+				walk(a.X, d+1)
+			case *ssa.Alloc:
+				walk(a, d+1)
+			case *ssa.FieldAddr:
+				// a field: not followed
+			default:
+				walk(x.X, d+1)
+			}
+		case *ssa.Alloc:
+			for _, r := range referrersOf(x) {
+				switch y := r.(type) {
+				case *ssa.IndexAddr:
+					for _, r2 := range referrersOf(y) {
+						if st, ok := r2.(*ssa.Store); ok && st.Addr == ssa.Value(y) {
+							walk(st.Val, d+1)
+						}
+					}
+				case *ssa.Store:
+					if y.Addr == ssa.Value(x) {
+						walk(y.Val, d+1)
+					}
+				}
+			}
+		case *ssa.Slice:
+			walk(x.X, d+1)
+		case *ssa.IndexAddr:
+			walk(x.X, d+1)
+		case *ssa.Index:
+			walk(x.X, d+1)
+		case *ssa.Lookup:
+			walk(x.X, d+1)
+		case *ssa.MakeInterface:
+			walk(x.X, d+1)
+		case *ssa.ChangeType:
+			walk(x.X, d+1)
+		case *ssa.Convert:
+			walk(x.X, d+1)
+		case *ssa.Next:
+			walk(x.Iter, d+1)
+		case *ssa.Range:
+			walk(x.X, d+1)
+		case *ssa.Parameter:
+			if a, ok := bind[x]; ok {
+				walk(a, d+1)
+				return
+			}
+			if sc != nil {
+				for _, a := range sc.paramArgs(x) {
+					walk(a, d+1)
+				}
+			}
+		}
+	}
+	walk(v, 0)
+	var res []string
+	for s := range out {
+		res = append(res, s)
+	}
+	sort.Strings(res)
+	return res
+}
+
+// headerAgreement decides, from the SSA form, two writer/reader agreements for
+// the unified format's file header: the prefix constant and the time layout,
+// per side.  ok=false when the shapes are not recognised (the caller falls back
+// to the syntactic rule).
+type headerSide struct {
+	name, time     string // FileInfo fields
+	readerFn       string
+	readerPos      token.Pos
+	readerPrefixes []string
+	readerLayouts  []string
+	writerConsts   []string
+	writerPos      token.Pos
+	writerFound    bool
+}
+
+func headerAgreement(P *Prog) (sides []*headerSide, writerLayouts []string, wpos token.Pos, ok bool) {
+	fiT := P.Named("mdiff", "FileInfo")
+	unified := P.Func("mdiff", "", "Unified")
+	if fiT == nil || unified == nil {
+		return nil, nil, 0, false
+	}
+	isFI := func(t types.Type) bool {
+		if p, ok := t.Underlying().(*types.Pointer); ok {
+			t = p.Elem()
+		}
+		return isNamedOrigin(t, fiT)
+	}
+	isTime := func(t types.Type) bool {
+		n, ok := t.(*types.Named)
+		return ok && n.Obj().Pkg() != nil && n.Obj().Pkg().Path() == "time" && n.Obj().Name() == "Time"
+	}
+	storedField := func(v ssa.Value) *types.Var {
+		for _, r := range referrersOf(v) {
+			if st, ok := r.(*ssa.Store); ok && st.Val == v {
+				if fa, ok := st.Addr.(*ssa.FieldAddr); ok && isFI(fa.X.Type()) {
+					_, f := fieldVarOf(fa)
+					return f
+				}
+			}
+		}
+		return nil
+	}
+	bySide := map[string]*headerSide{}
+	for _, fn := range P.PkgFuncs("mdiff") {
+		fn := fn
+		allInstrs(fn, func(in ssa.Instruction) {
+			call, isCall := in.(*ssa.Call)
+			if !isCall {
+				return
+			}
+			tup, isTup := call.Type().(*types.Tuple)
+			if !isTup || tup.Len() != 2 {
+				return
+			}
+			var sf, tf *types.Var
+			for _, r := range referrersOf(call) {
+				ex, isEx := r.(*ssa.Extract)
+				if !isEx {
+					continue
+				}
+				f := storedField(ex)
+				if f == nil {
+					continue
+				}
+				if b, isB := ex.Type().Underlying().(*types.Basic); isB && b.Kind() == types.String {
+					sf = f
+				} else if isTime(ex.Type()) {
+					tf = f
+				}
+			}
+			if sf == nil || tf == nil {
+				return
+			}
+			hs := &headerSide{name: sf.Name(), time: tf.Name(), readerFn: fnName(fn), readerPos: call.Pos()}
+			// what the reader cut off before parsing this side
+			sc := buildCallScope(fn)
+			for _, a := range call.Call.Args {
+				hs.readerPrefixes = append(hs.readerPrefixes, strConstsReaching(a, nil, sc)...)
+			}
+			// the layouts the parser tries for this call
+			if cal := staticCallee(&call.Call); cal != nil && origin(cal).Blocks != nil {
+				o := origin(cal)
+				bind := map[*ssa.Parameter]ssa.Value{}
+				for i, p := range o.Params {
+					if i < len(call.Call.Args) {
+						bind[p] = call.Call.Args[i]
+					}
+				}
+				for _, g := range buildCallScope(o).fns {
+					allInstrs(g, func(in2 ssa.Instruction) {
+						c2, isC := in2.(*ssa.Call)
+						if !isC {
+							return
+						}
+						if tc := staticCallee(&c2.Call); tc != nil && origin(tc).Pkg != nil && origin(tc).Pkg.Pkg.Path() == "time" && (origin(tc).Name() == "Parse" || origin(tc).Name() == "ParseInLocation") && len(c2.Call.Args) >= 2 {
+							hs.readerLayouts = append(hs.readerLayouts, strConstsReaching(c2.Call.Args[0], bind, sc)...)
+						}
+					})
+				}
+			}
+			// a layout handed to the parser is not something that was cut off the line
+			var pfx []string
+			for _, p := range hs.readerPrefixes {
+				isLayout := false
+				for _, l := range hs.readerLayouts {
+					if l == p {
+						isLayout = true
+					}
+				}
+				if !isLayout {
+					pfx = append(pfx, p)
+				}
+			}
+			hs.readerPrefixes = pfx
+			bySide[hs.name] = hs
+		})
+	}
+	if len(bySide) != 2 {
+		return nil, nil, 0, false
+	}
+	// writer
+	var feedsField func(v ssa.Value, out map[string]bool, depth int, seen map[ssa.Value]bool)
+	feedsField = func(v ssa.Value, out map[string]bool, depth int, seen map[ssa.Value]bool) {
+		if v == nil || depth > 10 || seen[v] {
+			return
+		}
+		seen[v] = true
+		switch x := v.(type) {
+		case *ssa.UnOp:
+			if fa, ok := x.X.(*ssa.FieldAddr); ok && x.Op == token.MUL && isFI(fa.X.Type()) {
+				_, f := fieldVarOf(fa)
+				out[f.Name()] = true
+				return
+			}
+			feedsField(x.X, out, depth+1, seen)
+		case *ssa.Call:
+			for _, a := range x.Call.Args {
+				feedsField(a, out, depth+1, seen)
+			}
+		case *ssa.Slice:
+			feedsField(x.X, out, depth+1, seen)
+		case *ssa.Alloc:
+			for _, r := range referrersOf(x) {
+				if y, ok := r.(*ssa.IndexAddr); ok {
+					for _, r2 := range referrersOf(y) {
+						if st, ok := r2.(*ssa.Store); ok && st.Addr == ssa.Value(y) {
+							feedsField(st.Val, out, depth+1, seen)
+						}
+					}
+				}
+			}
+		case *ssa.Phi:
+			for _, e := range x.Edges {
+				feedsField(e, out, depth+1, seen)
+			}
+		case *ssa.MakeInterface:
+			feedsField(x.X, out, depth+1, seen)
+		case *ssa.ChangeType:
+			feedsField(x.X, out, depth+1, seen)
+		}
+	}
+	wsc := buildCallScope(unified)
+	for _, g := range wsc.fns {
+		allInstrs(g, func(in ssa.Instruction) {
+			call, isCall := in.(*ssa.Call)
+			if !isCall {
+				return
+			}
+			if tc := staticCallee(&call.Call); tc != nil && origin(tc).Pkg != nil && origin(tc).Pkg.Pkg.Path() == "time" && origin(tc).Name() == "Format" && len(call.Call.Args) == 2 {
+				writerLayouts = append(writerLayouts, strConstsReaching(call.Call.Args[1], nil, wsc)...)
+				wpos = call.Pos()
+			}
+			if len(call.Call.Args) < 2 {
+				return
+			}
+			fed := map[string]bool{}
+			for _, a := range call.Call.Args {
+				feedsField(a, fed, 0, map[ssa.Value]bool{})
+			}
+			var names []string
+			for f := range fed {
+				if _, isName := bySide[f]; isName {
+					names = append(names, f)
+				}
+			}
+			if len(names) != 1 {
+				return
+			}
+			hs := bySide[names[0]]
+			for _, a := range call.Call.Args {
+				hs.writerConsts = append(hs.writerConsts, strConstsReaching(a, nil, wsc)...)
+			}
+			hs.writerFound, hs.writerPos = true, call.Pos()
+		})
+	}
+	for _, hs := range bySide {
+		if !hs.writerFound || len(hs.readerPrefixes) == 0 || len(hs.readerLayouts) == 0 {
+			return nil, nil, 0, false
+		}
+		sides = append(sides, hs)
+	}
+	if len(writerLayouts) == 0 {
+		return nil, nil, 0, false
+	}
+	sort.Slice(sides, func(i, j int) bool { return sides[i].readerPos < sides[j].readerPos })
+	return sides, writerLayouts, wpos, true
+}
